@@ -220,6 +220,31 @@ def probe_portfolio(spec):
                                      'nodes': list(pf5.nodes.keys())}
         except Exception as e:
             o['renamed_in_place'] = {'solve': 'crash', 'error': repr(e)[:300]}
+    if opts.get('struct_regrid'):
+        # a structured asset that was used on this grid is put on the next horizon (set_timegrid) and set up WITHOUT handing a grid over:
+        # its problem is that of fresh objects set up on the new grid
+        o['regrid'] = []
+        try:
+            g1 = dict(spec['grid'])
+            d1 = pd.Timestamp(g1['end']) - pd.Timestamp(g1['start'])
+            g1['start'], g1['end'] = str(pd.Timestamp(g1['start']) + d1), str(pd.Timestamp(g1['end']) + d1)
+            for k_, a_ in enumerate(portf.assets):
+                if type(a_).__name__ != 'StructuredAsset':
+                    continue
+                rec = {'name': a_.name}
+                try:
+                    tgB = mk_grid(g1)
+                    a_.set_timegrid(tgB)
+                    pa = dump_problem(a_.setup_optim_problem(mk_prices(spec)))
+                    fresh = mk_portfolio(spec).assets[k_]
+                    pb = dump_problem(fresh.setup_optim_problem(mk_prices(spec), mk_grid(g1)))
+                    rec['same'] = all(pa[key] == pb[key] for key in ('c', 'l', 'u', 'b', 'cType', 'rows'))
+                    rec['sizes'] = [len(pa['c']), len(pb['c'])]
+                except Exception as e:
+                    rec['error'] = repr(e)[:200]
+                o['regrid'].append(rec)
+        except Exception as e:
+            o['regrid_error'] = repr(e)[:200]
     if opts.get('inner_standalone'):
         # the portfolio wrapped by a structured asset is an ordinary Portfolio object: optimised on its own AFTER it was used inside
         # the structure it must balance all of its nodes (also those that are external nodes of the structure)
